@@ -197,6 +197,25 @@ def strip_phi(t):
     return [t]
 
 
+def value_alts(t):
+    """the values a term may stand for: alternatives of a phi and both branches of a conditional expression, recursively"""
+    if t[0] == 'phi':
+        out = []
+        for x in t[1]:
+            for y in value_alts(x):
+                if y not in out:
+                    out.append(y)
+        return out
+    if t[0] == 'ifexp':
+        out = []
+        for x in t[2:4]:
+            for y in value_alts(x):
+                if y not in out:
+                    out.append(y)
+        return out
+    return [t]
+
+
 def mkphi(items):
     flat = []
     for x in items:
